@@ -14,7 +14,7 @@ CLAIMED = {
               "median absolute deviation of the log marginals is 0), 'no remaining data' per matrix / per chromosome, hence the exact "
               "set of bins that must carry NaN; and an exact WITNESS family (uniform filtered marginals S in {1,4,16,64}: one "
               "iteration, variance 0, weights exactly 1/sqrt(S), scale S, converged; per chromosome in cis mode; two equal "
-              "chromosomes in trans mode). Real balance_cooler /  runs on random integer matrices x modes x "
+              "chromosomes in trans mode). Real balance_cooler / cooler-balance CLI runs on random integer matrices x modes x "
               "ignore_diags x min_nnz x min_count x blacklist x initial weights x rescaling x chunk sizes, on witness matrices and on "
               "the MAD-decidable family; TLC computes the expected NaN set / weights / scale from the integer data and compares "
               "exactly (TLC itself checks that generated witness cases are witnesses)."),
